@@ -30,6 +30,10 @@ type variant07 struct {
 	// gives partitions up for B (the callback outlasts a heartbeat): the
 	// subscription of the revoking member changes in the revoke window; B stays
 	subInRevoke bool
+	// KIP-848 with the server-side range assignor, ONE partition and static
+	// instance ids ordered so that the joiner B sorts before the owner A: B's
+	// join takes everything away from A in one reconciliation; B stays
+	steal bool
 }
 
 const (
@@ -43,19 +47,30 @@ func scenario07(v variant07) *netctl.Scenario {
 		Faults:  nil,
 		Horizon: 6 * time.Minute,
 		Setup: func(x *netctl.Exec) {
-			topics := map[string]int32{"t": 3}
+			nparts := 3
+			if v.steal {
+				nparts = 1
+			}
+			topics := map[string]int32{"t": int32(nparts)}
 			if v.addTopic || v.subInRevoke {
 				topics["t2"] = 2
 			}
 			g := New(x, v.proto, topics)
 			g.RevokeWork = 1300 * time.Millisecond // longer than a heartbeat interval
 			x.Data = g
-			stays := v.addTopic || v.addParts || v.subInRevoke
+			stays := v.addTopic || v.addParts || v.subInRevoke || v.steal
+			mopts := func(name string) []kgo.Opt {
+				o := []kgo.Opt{kgo.DisableAutoCommit()}
+				if v.steal {
+					o = append(o, kgo.Balancers(kgo.RangeBalancer()), kgo.InstanceID(map[string]string{"A": "z-A", "B": "a-B", "C": "m-C"}[name]))
+				}
+				return o
+			}
 			owns := func(m string, n int) func() bool { return func() bool { return len(g.Owned(m)) >= n } }
 
 			g.Thread("A", func(t *netctl.Thread) {
 				g.Step(t, "join+poll")
-				a := g.Join("A", true, []string{"t"}, kgo.DisableAutoCommit())
+				a := g.Join("A", true, []string{"t"}, mopts("A")...)
 				g.PollOnce("A", a, 10, pollWait07)
 				// "A polls again and sees the revocation": released once B is in the picture.
 				if !g.WaitUntil(gateLimit07, func() bool { return g.Client("B") != nil }) {
@@ -78,12 +93,12 @@ func scenario07(v variant07) *netctl.Scenario {
 			g.Thread("B", func(t *netctl.Thread) {
 				// The default schedule is the interesting one: B arrives when A
 				// owns the whole topic, so partitions have to move from A to B.
-				if !g.WaitUntil(gateLimit07, owns("A", 3)) {
+				if !g.WaitUntil(gateLimit07, owns("A", nparts)) {
 					return
 				}
 				g.Step(t, "join+poll")
 				g.Sleep(137 * time.Millisecond) // members' periodic timers must not tie (a tie's firing order is the Go runtime's)
-				b := g.Join("B", true, []string{"t"}, kgo.DisableAutoCommit())
+				b := g.Join("B", true, []string{"t"}, mopts("B")...)
 				g.PollOnce("B", b, 10, pollWait07)
 				if !v.early && !g.WaitUntil(gateLimit07, owns("B", 1)) {
 					return
@@ -117,7 +132,7 @@ func scenario07(v variant07) *netctl.Scenario {
 					}
 					g.Step(t, "join+poll")
 					g.Sleep(271 * time.Millisecond)
-					c := g.Join("C", true, []string{"t"}, kgo.DisableAutoCommit())
+					c := g.Join("C", true, []string{"t"}, mopts("C")...)
 					g.PollOnce("C", c, 10, pollWait07)
 				})
 			}
@@ -211,6 +226,8 @@ var plansC07 = []nrun.Plan{
 	{Scenario: scenario07(variant07{name: "G-848-sub-in-revoke", proto: Next, subInRevoke: true}), QuickBudget: 1, ThoroughBudget: 3, Weight: 2},
 	{Scenario: scenario07(variant07{name: "G-coop-sub-in-revoke", proto: Coop, subInRevoke: true}), QuickBudget: 1, ThoroughBudget: 2, Weight: 1},
 	{Scenario: scenario07(variant07{name: "G-eager-sub-in-revoke", proto: Eager, subInRevoke: true}), QuickBudget: 1, ThoroughBudget: 2, Weight: 1},
+	// A join that empties the current owner (848 range assignor, one partition).
+	{Scenario: scenario07(variant07{name: "G-848-range-steal", proto: Next, steal: true}), QuickBudget: 1, ThoroughBudget: 3, Weight: 1},
 	// Third member: default schedule only in the quick tier, k=2 thorough.
 	{Scenario: scenario07(variant07{name: "G-eager-3", proto: Eager, third: true}), QuickBudget: 0, ThoroughBudget: 2, Weight: 2},
 	{Scenario: scenario07(variant07{name: "G-coop-3", proto: Coop, third: true, useClose: true}), QuickBudget: 0, ThoroughBudget: 2, Weight: 2},
